@@ -184,7 +184,7 @@ class Station:
                     req_ms, req_hl, nh, ht, hst, scf, off, tcid, lat, lon, a, b, angle = q
                     HST = GeoBroadcastHST if ht == 4 else GeoAnycastHST
                     req = GNDataRequest(upper_protocol_entity=CommonNH(nh),
-                                        packet_transport_type=PacketTransportType(HeaderType(ht), HST(hst)),
+                                        packet_transport_type=PacketTransportType(stack.header_type_by_name(ht), stack.shape_hst_by_name(ht, hst)),
                                         traffic_class=TrafficClass(bool(scf), bool(off), tcid), data=ev["payload"],
                                         length=len(ev["payload"]), max_hop_limit=req_hl,
                                         max_packet_lifetime=None if req_ms < 0 else req_ms / 1000,
